@@ -15,6 +15,8 @@ SEEDS = [
     "Tlm{X_1=RC,X_2=[L],Zeta=open:a}", "R{R=1e3/inf/inf}", "(R{R=2E+00/0/inf:a b}[C{:x{1}y}Ws])",
     "Tlm{X_1=Tlm{X_1=R,Zeta=(RC)}C, X_2=zero, Z_B=inf}", "C{C=1.5E+04/1.0E+04/1.0E+06}",
     # version headers with every kind of number: out of the double range, fractional, zero, negative, too new
+    # percentages of literals beyond the double range (inf as a Number token)
+    "C{C=1.5E+04/1.0E+0411%}", "C{C=1.5E+04//1e999%}", "R{R=0/1e999%}", "L{L=-1/1e999%/inf}", "C{C=1.5E+04/-1e999%}",
     "!V=1e999!R(RC)", "!V=1.5!RC", "!V=0![R]", "!V=-1!R", "!V=2!R{R=1}", "!V=1e3!R", "!W=1!R", "!V=1F!R",
 ]
 ALPHABET = "RCL[](){}=/%,:! 1-e.Ffainxo_"
